@@ -318,6 +318,13 @@ fn check_lookup_helpers(st: &mut Stats, text: &str, ord_syms: Option<Vec<NamedSy
             if got != i {
                 return Ok(Some(format!("to_free_index({}) = {} but it is free variable #{} of {:?}", v.name, got, i, pf.free_vars.iter().map(|x| x.name.as_ref().clone()).collect::<Vec<_>>())));
             }
+            // a symbol IS its id: a node that reached the environment under another spelling of the
+            // same id (an earlier formula of a shared environment) belongs to the same column
+            let other_spelling = NamedSymbol { name: Rc::new(format!("{}_as_spelled_by_an_earlier_formula", v.name)), id: v.id };
+            let got = pf.to_free_index(&other_spelling);
+            if got != i {
+                return Ok(Some(format!("to_free_index of the symbol with id {} under another name = {} but the variable with that id is free variable #{} ({})", v.id, got, i, v.name)));
+            }
         }
         for (i, v) in pf.vars.iter().enumerate() {
             let u = pf.usize2var(i);
